@@ -167,14 +167,6 @@ def execute(case):
     return out
 
 
-def _kf_c13_1(case, outcome):
-    ops = (outcome.get("details") or {}).get("ops") or ()
-    return bool(outcome.get("oracle") == "race" and any(str(o).startswith("test.op#") for o in ops))
-
-
-TRIGGERS = {"reader_executed_by_every_core_is_not_a_dependency_source": _kf_c13_1}
-
-
 def shrink(case):
     if len(case["envs"]) > 1:
         for i in range(len(case["envs"])):
